@@ -46,6 +46,7 @@ class Finality(object):
         self.rejected_after = 0
         self.rejected = 0
         self.cleanup_offers = 0
+        self.cancel_seen = False
         self.snap = None
 
     def pre(self, drv):
@@ -56,6 +57,11 @@ class Finality(object):
         before, after = rec["before"], rec["after"]
         if op["op"] == "start":
             return
+        if op["op"] == "req" and not rec["rejected"] and op["status"] in ("canceling", "canceled"):
+            # a with-items task that the cancellation stopped half-way completes as canceled and its
+            # transitions still fire; the reference model does not follow tasks canceled by the workflow,
+            # so the clean-up restriction is asserted on histories without an accepted cancel request
+            self.cancel_seen = True
         hist = lambda: common.history_summary(_R(drv))[-30:]  # noqa
         if rec["rejected"]:
             self.rejected += 1
@@ -81,6 +87,8 @@ class Finality(object):
                 if before in ("succeeded", "canceled"):
                     raise Violation("offer-after-" + before, {"offers": [(o["id"], o["route"]) for o in rec["offers"]], "definition": drv.defn, "history": hist()})
                 for o in rec["offers"]:
+                    if self.cancel_seen:
+                        break
                     if o["id"] not in self.flow.cleanup_ok:
                         raise Violation("non-cleanup-offer-after-failed", {"offer": [o["id"], o["route"]], "cleanup_allowed": sorted(self.flow.cleanup_ok), "definition": drv.defn, "history": hist()})
                     self.cleanup_offers += 1
